@@ -37,10 +37,11 @@ thread_local! {
 
 /// How injected (non-Interrupted) failures are constructed on this thread:
 /// 0 = new(Other, text), 1 = from(Other) (no payload), 2 = from(BrokenPipe),
-/// 3 = from_raw_os_error(ENOSPC), 4 = new(UnexpectedEof, text), 5 = new(InvalidData, text).
+/// 3 = from_raw_os_error(ENOSPC), 4 = new(UnexpectedEof, text), 5 = new(InvalidData, text),
+/// 6 = new(WouldBlock, text), 7 = new(Interrupted, text), 8 = new(TimedOut, text).
 /// Returns a guard that restores style 0.
 pub fn set_err_style(s: u8) -> ErrStyleGuard {
-    ERR_STYLE.with(|c| c.set(s % 6));
+    ERR_STYLE.with(|c| c.set(s % 9));
     ErrStyleGuard
 }
 pub struct ErrStyleGuard;
@@ -57,6 +58,10 @@ fn injected(msg: &'static str) -> io::Error {
         3 => io::Error::from_raw_os_error(28),
         4 => io::Error::new(io::ErrorKind::UnexpectedEof, msg),
         5 => io::Error::new(io::ErrorKind::InvalidData, msg),
+        // kinds that callers conventionally treat as retryable (used by C16: a stream that returned an error stays failed whatever the kind)
+        6 => io::Error::new(io::ErrorKind::WouldBlock, msg),
+        7 => io::Error::new(io::ErrorKind::Interrupted, msg),
+        8 => io::Error::new(io::ErrorKind::TimedOut, msg),
         _ => io::Error::new(io::ErrorKind::Other, msg),
     }
 }
